@@ -326,6 +326,7 @@ func main() {
 	genGuards()
 	genSurface()
 	genProbes()
+	genWiring()
 	genComparator()
 	if len(failed) > 0 {
 		for _, f := range failed {
